@@ -613,6 +613,7 @@ VOP(sch_run)
 				if (fd < 0) continue;
 				if (flock(fd, LOCK_EX | LOCK_NB) == 0) slotFd = fd; else close(fd);
 			}
+			Heartbeat();
 			if (slotFd < 0) Utility::Sleep(0.05 + (getpid() % 50) / 1000.0);   // not from rng: the storm must depend on the seed only
 		}
 	}
@@ -702,6 +703,7 @@ VOP(sch_run)
 		Utility::SetThreadName("sch observer");
 		while (!stop.load()) {
 			double t = Utility::GetTime();
+			Heartbeat();
 			Utility::Sleep(0.004);
 			long over = std::llround((Utility::GetTime() - t - 0.004) * 1e6);
 			if (over > hiccup.load()) hiccup.store(over);
